@@ -147,9 +147,12 @@ func runC13(ctx *Ctx) {
 		for _, i := range idx[:k] {
 			out = append(out, w.names[i])
 		}
-		// files that import each other across Go packages must often be generated together
+		// files that import each other (across Go packages, or as siblings of one
+		// Go package) must often be generated together
 		if rapid.IntRange(0, 2).Draw(rt, "pair") == 0 {
-			pairs := [][]string{{"verif/impa.proto", "verif/impb.proto"}, {"verif/alpha/types.proto", "verif/beta/types.proto"}}
+			pairs := [][]string{{"verif/impa.proto", "verif/impb.proto"}, {"verif/alpha/types.proto", "verif/beta/types.proto"},
+				{"verif/samepkg/a_main.proto", "verif/samepkg/m_types.proto"}, {"verif/samepkg/a_main.proto", "verif/samepkg/z_types.proto"},
+				{"verif/samepkg/a_main.proto", "verif/samepkg/m_types.proto", "verif/samepkg/z_types.proto"}}
 			for _, n := range pairs[rapid.IntRange(0, len(pairs)-1).Draw(rt, "whichpair")] {
 				has, usable := false, false
 				for _, o := range out {
